@@ -1,0 +1,196 @@
+//go:build verif
+
+// Contracts for the govc verifier (/verif). Comment-only; see ../../contracts_verif.go.
+
+package prometheus
+
+//@ func setRequestID
+//@   serves C19
+//@   pure
+//@   ensures sessionOf(result) == reqID
+
+//@ func getRequestID
+//@   serves C19
+//@   pure
+//@   ensures result == sessionOf(ctx)
+
+// ---- connection gauge: +1 at session start, -1 at session end
+//@ func connectionCounter.ServeNostrStart
+//@   serves C19
+//@   requires c != nil
+//@   writes ghost(gaugeval, c.c)
+//@   ensures g(gaugeval, refof(c.c)) == old(g(gaugeval, refof(c.c))) + 1 && result0 == ctx && result1 == nil
+//@ func connectionCounter.ServeNostrEnd
+//@   serves C19
+//@   requires c != nil
+//@   writes ghost(gaugeval, c.c)
+//@   ensures g(gaugeval, refof(c.c)) == old(g(gaugeval, refof(c.c))) - 1 && result == nil
+//@ func connectionCounter.ServeNostrClientMsg
+//@   serves C19
+//@   pure
+//@   ensures isnil(result0) && isnil(result1) && result2 == nil
+//@ func connectionCounter.ServeNostrServerMsg
+//@   serves C19
+//@   pure
+//@   ensures isnil(result0) && result1 == nil
+
+// ---- per-type counter of received messages: exactly one Inc of the counter labelled with the message's type
+//@ func recvMsgCounter.ServeNostrStart
+//@   serves C19
+//@   pure
+//@   ensures result0 == ctx && result1 == nil
+//@ func recvMsgCounter.ServeNostrEnd
+//@   serves C19
+//@   pure
+//@   ensures result == nil
+//@ func recvMsgCounter.ServeNostrClientMsg
+//@   serves C19
+//@   requires c != nil
+//@   writes ghost(counterval, labelCounter(c.c, clientLabel(msg)))
+//@   ensures g(counterval, refof(labelCounter(c.c, clientLabel(msg)))) == old(g(counterval, refof(labelCounter(c.c, clientLabel(msg))))) + 1
+//@   ensures isnil(result0) && isnil(result1) && result2 == nil
+//@ func recvMsgCounter.ServeNostrServerMsg
+//@   serves C19
+//@   pure
+//@   ensures isnil(result0) && result1 == nil
+
+// ---- per-kind counter of received events
+//@ func recvEventCounter.ServeNostrStart
+//@   serves C19
+//@   pure
+//@   ensures result0 == ctx && result1 == nil
+//@ func recvEventCounter.ServeNostrEnd
+//@   serves C19
+//@   pure
+//@   ensures result == nil
+//@ func recvEventCounter.ServeNostrClientMsg
+//@   serves C19
+//@   requires c != nil && wfClientMsg(msg)
+//@   writes ghost(counterval, labelCounter(c.c, decimal(as(msg, *mocrelay.ClientEventMsg).Event.Kind)))
+//@   ensures typeis(msg, *mocrelay.ClientEventMsg) ==> g(counterval, refof(labelCounter(c.c, decimal(as(msg, *mocrelay.ClientEventMsg).Event.Kind)))) == old(g(counterval, refof(labelCounter(c.c, decimal(as(msg, *mocrelay.ClientEventMsg).Event.Kind))))) + 1
+//@   ensures !typeis(msg, *mocrelay.ClientEventMsg) ==> g(counterval, refof(labelCounter(c.c, decimal(as(msg, *mocrelay.ClientEventMsg).Event.Kind)))) == old(g(counterval, refof(labelCounter(c.c, decimal(as(msg, *mocrelay.ClientEventMsg).Event.Kind)))))
+//@   ensures isnil(result0) && isnil(result1) && result2 == nil
+//@ func recvEventCounter.ServeNostrServerMsg
+//@   serves C19
+//@   pure
+//@   ensures isnil(result0) && result1 == nil
+
+// ---- per-type counter of sent messages
+//@ func sendMsgCounter.ServeNostrStart
+//@   serves C19
+//@   pure
+//@   ensures result0 == ctx && result1 == nil
+//@ func sendMsgCounter.ServeNostrEnd
+//@   serves C19
+//@   pure
+//@   ensures result == nil
+//@ func sendMsgCounter.ServeNostrClientMsg
+//@   serves C19
+//@   pure
+//@   ensures isnil(result0) && isnil(result1) && result2 == nil
+//@ func sendMsgCounter.ServeNostrServerMsg
+//@   serves C19
+//@   requires c != nil
+//@   writes ghost(counterval, labelCounter(c.c, serverLabel(msg)))
+//@   ensures g(counterval, refof(labelCounter(c.c, serverLabel(msg)))) == old(g(counterval, refof(labelCounter(c.c, serverLabel(msg))))) + 1
+//@   ensures isnil(result0) && result1 == nil
+
+// ---- subscription gauge: every operation changes the gauge by exactly the change of the session's open set
+//@ func reqCounter.ServeNostrStart
+//@   serves C19
+//@   requires c != nil && c.m != nil && held(c.mu) == 0 && !has(c.m, sessionOf(ctx))
+//@   writes contents(c.m), lock(c.mu)
+//@   ensures held(c.mu) == 0 && result0 == ctx && result1 == nil
+//@   ensures sessionStarted(c, ctx) && openSubs(c, ctx) == 0 && all(s, string, !subOpen(c, ctx, s))
+//@   ensures all(k, string, k != sessionOf(ctx) ==> (has(c.m, k) == old(has(c.m, k)) && c.m[k] == old(c.m[k])))
+//@ func reqCounter.ServeNostrEnd
+//@   serves C19
+//@   requires c != nil && c.m != nil && held(c.mu) == 0
+//@   writes contents(c.m), lock(c.mu), ghost(gaugeval, c.c)
+//@   ensures held(c.mu) == 0 && result == nil
+//@   ensures g(gaugeval, refof(c.c)) == old(g(gaugeval, refof(c.c))) - old(openSubs(c, ctx))
+//@   ensures !has(c.m, sessionOf(ctx)) && all(k, string, k != sessionOf(ctx) ==> (has(c.m, k) == old(has(c.m, k)) && c.m[k] == old(c.m[k])))
+//@ func reqCounter.ServeNostrClientMsg
+//@   serves C19
+//@   requires sessionStarted(c, ctx) && held(c.mu) == 0 && wfClientMsg(msg) && cardfacts(c.m[sessionOf(ctx)])
+//@   opt overflow=assume
+//@   writes contents(c.m[sessionOf(ctx)]), lock(c.mu), ghost(gaugeval, c.c)
+//@   ensures held(c.mu) == 0 && isnil(result0) && isnil(result1) && result2 == nil
+//@   ensures g(gaugeval, refof(c.c)) - old(g(gaugeval, refof(c.c))) == openSubs(c, ctx) - old(openSubs(c, ctx))
+//@   ensures typeis(msg, *mocrelay.ClientReqMsg) ==> all(s, string, subOpen(c, ctx, s) == (old(subOpen(c, ctx, s)) || s == as(msg, *mocrelay.ClientReqMsg).SubscriptionID))
+//@   ensures typeis(msg, *mocrelay.ClientCloseMsg) ==> all(s, string, subOpen(c, ctx, s) == (old(subOpen(c, ctx, s)) && s != as(msg, *mocrelay.ClientCloseMsg).SubscriptionID))
+//@   ensures (!typeis(msg, *mocrelay.ClientReqMsg) && !typeis(msg, *mocrelay.ClientCloseMsg)) ==> all(s, string, subOpen(c, ctx, s) == old(subOpen(c, ctx, s)))
+//@ func reqCounter.ServeNostrServerMsg
+//@   serves C19
+//@   requires sessionStarted(c, ctx) && held(c.mu) == 0 && wfServerMsg(msg) && cardfacts(c.m[sessionOf(ctx)])
+//@   opt overflow=assume
+//@   writes contents(c.m[sessionOf(ctx)]), lock(c.mu), ghost(gaugeval, c.c)
+//@   ensures held(c.mu) == 0 && isnil(result0) && result1 == nil
+//@   ensures g(gaugeval, refof(c.c)) - old(g(gaugeval, refof(c.c))) == openSubs(c, ctx) - old(openSubs(c, ctx))
+//@   ensures typeis(msg, *mocrelay.ServerClosedMsg) ==> all(s, string, subOpen(c, ctx, s) == (old(subOpen(c, ctx, s)) && s != as(msg, *mocrelay.ServerClosedMsg).SubscriptionID))
+//@   ensures !typeis(msg, *mocrelay.ServerClosedMsg) ==> all(s, string, subOpen(c, ctx, s) == old(subOpen(c, ctx, s)))
+
+// ---- response-time summary (not part of C19's statement; kept panic-free)
+//@ func reqResponseTimeCounter.ServeNostrStart
+//@   serves C19
+//@   requires c != nil && c.m != nil && held(c.mu) == 0
+//@   writes contents(c.m), lock(c.mu)
+//@   ensures held(c.mu) == 0 && result0 == ctx && result1 == nil
+//@   ensures has(c.m, sessionOf(ctx)) && c.m[sessionOf(ctx)] != nil
+//@ func reqResponseTimeCounter.ServeNostrEnd
+//@   serves C19
+//@   requires c != nil && c.m != nil && held(c.mu) == 0
+//@   writes contents(c.m), lock(c.mu)
+//@   ensures held(c.mu) == 0 && result == nil
+//@ func reqResponseTimeCounter.ServeNostrClientMsg
+//@   serves C19
+//@   requires c != nil && c.m != nil && has(c.m, sessionOf(ctx)) && c.m[sessionOf(ctx)] != nil && held(c.mu) == 0 && wfClientMsg(msg)
+//@   writes contents(c.m[sessionOf(ctx)]), lock(c.mu)
+//@   ensures held(c.mu) == 0 && isnil(result0) && isnil(result1) && result2 == nil
+//@ func reqResponseTimeCounter.ServeNostrServerMsg
+//@   serves C19
+//@   requires c != nil && c.m != nil && has(c.m, sessionOf(ctx)) && c.m[sessionOf(ctx)] != nil && held(c.mu) == 0 && wfServerMsg(msg)
+//@   writes contents(c.m[sessionOf(ctx)]), lock(c.mu)
+//@   ensures held(c.mu) == 0 && isnil(result0) && result1 == nil
+
+// ---- the middleware base: every message passes through unaltered; all counters are driven
+//@ func simplePrometheusMiddlewareBase.ServeNostrClientMsg
+//@   serves C19
+//@   requires m != nil && m.connectionCounter != nil && m.recvMsgCounter != nil && m.recvEventCounter != nil && m.sendMsgCounter != nil && m.reqCounter != nil && m.reqResponseTimeCounter != nil
+//@   requires sessionStarted(m.reqCounter, ctx) && held(m.reqCounter.mu) == 0 && cardfacts(m.reqCounter.m[sessionOf(ctx)]) && wfClientMsg(msg)
+//@   requires m.reqResponseTimeCounter.m != nil && has(m.reqResponseTimeCounter.m, sessionOf(ctx)) && m.reqResponseTimeCounter.m[sessionOf(ctx)] != nil && held(m.reqResponseTimeCounter.mu) == 0
+//@   requires m.recvMsgCounter.c != m.recvEventCounter.c && refof(m.connectionCounter.c) != refof(m.reqCounter.c)
+//@   ensures result2 == nil && forwardsOnly(result0, result1, msg)
+//@   ensures g(counterval, refof(labelCounter(m.recvMsgCounter.c, clientLabel(msg)))) == old(g(counterval, refof(labelCounter(m.recvMsgCounter.c, clientLabel(msg))))) + 1
+//@   ensures g(gaugeval, refof(m.reqCounter.c)) - old(g(gaugeval, refof(m.reqCounter.c))) == openSubs(m.reqCounter, ctx) - old(openSubs(m.reqCounter, ctx))
+//@   ensures g(gaugeval, refof(m.connectionCounter.c)) == old(g(gaugeval, refof(m.connectionCounter.c)))
+
+//@ func simplePrometheusMiddlewareBase.ServeNostrServerMsg
+//@   serves C19
+//@   requires m != nil && m.connectionCounter != nil && m.recvMsgCounter != nil && m.recvEventCounter != nil && m.sendMsgCounter != nil && m.reqCounter != nil && m.reqResponseTimeCounter != nil
+//@   requires sessionStarted(m.reqCounter, ctx) && held(m.reqCounter.mu) == 0 && cardfacts(m.reqCounter.m[sessionOf(ctx)]) && wfServerMsg(msg)
+//@   requires m.reqResponseTimeCounter.m != nil && has(m.reqResponseTimeCounter.m, sessionOf(ctx)) && m.reqResponseTimeCounter.m[sessionOf(ctx)] != nil && held(m.reqResponseTimeCounter.mu) == 0
+//@   ensures result1 == nil && holdsS(result0, msg)
+//@   ensures g(counterval, refof(labelCounter(m.sendMsgCounter.c, serverLabel(msg)))) == old(g(counterval, refof(labelCounter(m.sendMsgCounter.c, serverLabel(msg))))) + 1
+//@   ensures g(gaugeval, refof(m.reqCounter.c)) - old(g(gaugeval, refof(m.reqCounter.c))) == openSubs(m.reqCounter, ctx) - old(openSubs(m.reqCounter, ctx))
+
+//@ func simplePrometheusMiddlewareBase.ServeNostrEnd
+//@   serves C19
+//@   requires m != nil && m.connectionCounter != nil && m.recvMsgCounter != nil && m.recvEventCounter != nil && m.sendMsgCounter != nil && m.reqCounter != nil && m.reqResponseTimeCounter != nil
+//@   requires m.reqCounter.m != nil && held(m.reqCounter.mu) == 0 && m.reqResponseTimeCounter.m != nil && held(m.reqResponseTimeCounter.mu) == 0
+//@   requires refof(m.connectionCounter.c) != refof(m.reqCounter.c)
+//@   ensures result == nil
+//@   ensures g(gaugeval, refof(m.connectionCounter.c)) == old(g(gaugeval, refof(m.connectionCounter.c))) - 1
+//@   ensures g(gaugeval, refof(m.reqCounter.c)) == old(g(gaugeval, refof(m.reqCounter.c))) - old(openSubs(m.reqCounter, ctx))
+//@   ensures !has(m.reqCounter.m, sessionOf(ctx))
+
+//@ func simplePrometheusMiddlewareBase.ServeNostrStart
+//@   serves C19
+//@   requires m != nil && m.connectionCounter != nil && m.recvMsgCounter != nil && m.recvEventCounter != nil && m.sendMsgCounter != nil && m.reqCounter != nil && m.reqResponseTimeCounter != nil
+//@   requires m.reqCounter.m != nil && held(m.reqCounter.mu) == 0 && m.reqResponseTimeCounter.m != nil && held(m.reqResponseTimeCounter.mu) == 0
+//@   requires refof(m.connectionCounter.c) != refof(m.reqCounter.c)
+//@   assume @aftercall_NewString: !has(m.reqCounter.m, reqID)
+//@   ensures result1 == nil
+//@   ensures g(gaugeval, refof(m.connectionCounter.c)) == old(g(gaugeval, refof(m.connectionCounter.c))) + 1
+//@   ensures g(gaugeval, refof(m.reqCounter.c)) == old(g(gaugeval, refof(m.reqCounter.c)))
+//@   ensures sessionStarted(m.reqCounter, result0) && openSubs(m.reqCounter, result0) == 0
